@@ -535,6 +535,8 @@ def gen_factory_cases(ctx, S):
                     for i, p in enumerate(pi):
                         d[p["name"]] = None if (p["default_none"] and p["name"] not in present) else sentinel_arg(p, i)
                     cases.append((v, f["dom"], f["name"], d, "opaque-sentinel"))
+                # the same with long byte strings (a helper may clamp / pad what it is given)
+                cases.append((v, f["dom"], f["name"], {p["name"]: sentinel_arg(p, i, long=True) for i, p in enumerate(pi)}, "opaque-sentinel"))
                 for i, p in enumerate(pi):
                     fz = falsy_arg(p)
                     if p["default_none"] and fz is not None:
@@ -578,9 +580,13 @@ def falsy_oracle(f, pname, res_absent, res_sentinel, res_falsy):
 PINNED_OPAQUE = {("generic", "create_command_result")}   # dictionary dispatch on the result code
 
 
-def sentinel_arg(p, i):
+def sentinel_arg(p, i, long=False):
     kind = annotation_kind(p.get("ann"))
     b = lambda n: bytes([0xA0 + i] * n).hex()
+    if long and kind == "bytes":
+        return {"t": "bytes", "v": bytes((0x11 * (i + 1) + k) & 0xff for k in range(200)).hex()}
+    if long and kind == "byteslist":
+        return {"t": "byteslist", "v": [bytes((0x21 * (i + 1) + k) & 0xff for k in range(120)).hex(), b(2)]}
     if kind == "BDAddress":
         return {"t": "obj", "module": "whad.hub.ble", "cls": "BDAddress", "args": [{"t": "bytes", "v": b(6)}]}
     if kind == "ChannelMap":
